@@ -2,6 +2,14 @@
 open Model
 open Rt
 
+(* the name the generated typeenum! table (Gen/EnumTables.v) gives a code point *)
+let enum_name tbl names (n : n) : String.t =
+  match of_int tbl n with
+  | Named i -> str_of_coq (List.nth names (int_of_n i))
+  | Ranged (i, k) -> Printf.sprintf "%s(%d)" (str_of_coq (List.nth names (int_of_n i))) (int_of_n k)
+  | Catch k -> Printf.sprintf "Unimplemented(%d)" (int_of_n k)
+  | Reject -> "REJECT"
+
 let rec int_of_nat = function O -> 0 | S n -> 1 + int_of_nat n
 
 let rec int64_of_pos (p : positive) : Int64.t =
@@ -36,7 +44,7 @@ let pph (bs : n list) : String.t res =
   let v6 = flag_set fl (n_of_int 128) in
   let post = flag_set fl (n_of_int 64) in
   let legacy = flag_set fl (n_of_int 32) in
-  Ok (Printf.sprintf "%d/%d/%s/%s/%d/%s/%s/%d/%s%s%s%s%s" (int_of_n pt) (int_of_n fl) (hex_of_bytes d) (addr a) (int_of_n asn)
+  Ok (Printf.sprintf "%d.%s/%d/%s/%s/%d/%s/%s/%d/%s%s%s%s%s" (int_of_n pt) (enum_name te_bmp_message_PeerType te_bmp_message_PeerType_names pt) (int_of_n fl) (hex_of_bytes d) (addr a) (int_of_n asn)
         (hex_of_bytes id) tss (int_of_n rib) (b (not v6)) (b v6) (b (not post)) (b post) (b legacy))
 
 let upd_s (bs : n list) : String.t res =
@@ -52,7 +60,8 @@ let stat_s (s : stat) : String.t =
   | StatOther (t, l) -> Printf.sprintf "%d?%d" (int_of_n t) (int_of_n l)
 
 let tlvs_s (l : (n * n list) list) : String.t =
-  Printf.sprintf "[%s]" (String.concat "," (List.map (fun (t, v) -> Printf.sprintf "%d:%s" (int_of_n t) (hex_of_bytes v)) l))
+  Printf.sprintf "[%s]" (String.concat "," (List.map (fun (t, v) ->
+      Printf.sprintf "%d/%s:%s" (int_of_n t) (enum_name te_bmp_message_InformationTlvType te_bmp_message_InformationTlvType_names t) (hex_of_bytes v)) l))
 
 let one (bs : n list) : String.t =
   match bmp_from_octets bs with
